@@ -1020,7 +1020,7 @@ fn get_quote_trait_params<'a>(input: &DataType, ctx: &'a ImplContext) -> QuoteTr
         let missing_lt = impl_gens.params.iter().all(|param| {
             if let GenericParam::Lifetime(param) = param {
                 &param.lifetime != lt
-            } else { false }
+            } else { true }
         });
 
         if missing_lt {
